@@ -274,6 +274,13 @@ class CallStack(deque):
                     graph.add_edge(node, self[pred])
                 else:
                     graph.add_edge((cells,), self[pred])
+                    # The node of uncached cells is not kept, so pass
+                    # the references read in it on to its caller
+                    idx = len(self.refstack) - 1
+                    while idx >= 0 and self.refstack[idx][0] == self.counter:
+                        self.refstack[idx] = (
+                            self.counter - 1, self.refstack[idx][1])
+                        idx -= 1
             else:
                 if cells.is_cached:
                     graph.add_node(node)
@@ -284,7 +291,8 @@ class CallStack(deque):
         while self.refstack:
             if self.refstack[-1][0] == self.counter:
                 _, ref = self.refstack.pop()
-                cells.model.refgraph.add_edge(ref, node)
+                if cells.is_cached:
+                    cells.model.refgraph.add_edge(ref, node)
             else:
                 break
 
